@@ -835,14 +835,14 @@ Proof.
 Qed.
 
 Lemma j_header_hline n v :
-  ~ In ":"%char n -> j_header (n ++ s2b ": " ++ v) = Some (n, trim_space (" "%char :: v)).
+  ~ In ":"%char n -> j_header (n ++ s2b ": " ++ v) = Some (n, trim_space_go (" "%char :: v)).
 Proof.
   intros N. unfold j_header. change (s2b ": " ++ v) with (":"%char :: " "%char :: v).
   rewrite (index_byte_app_notin _ _ _ N), firstn_len_app, skipn_S_len_app. reflexivity.
 Qed.
 
 (* what the judge reads for a header the model holds as (name, printed value) *)
-Definition jpair (p : bytes * bytes) : bytes * bytes := (fst p, trim_space (" "%char :: snd p)).
+Definition jpair (p : bytes * bytes) : bytes * bytes := (fst p, trim_space_go (" "%char :: snd p)).
 Definition hpair (h : header) : bytes * bytes := (h_name h, hval_print (h_val h)).
 
 Lemma j_headers_hlines hs :
@@ -911,7 +911,7 @@ Proof.
                   = [jpair (hpair (cl_header m))]).
     { unfold em, emitted_headers. rewrite map_app, filter_app, filter_cl_kept. reflexivity. }
     rewrite Cls. cbn [snd jpair hpair cl_header h_name h_val hval_print List.length].
-    rewrite trim_space_sp, (trim_space_nospace _ (itoa_nospace _)).
+    rewrite trim_space_go_sp by reflexivity. rewrite trim_space_go_itoa.
     rewrite atoi_itoa by (unfold int_min; lia).
     rewrite Nat2Z.id, firstn_all, skipn_all. reflexivity.
   - constructor.
@@ -953,18 +953,19 @@ Qed.
 
 (* THE ONLY lemma that looks inside the trimming function of parse_header_line: the value the
    model stores, re-read by the judge after ": ", is the value the judge reads in the input
-   (for the ASCII trim_space: idempotence) *)
+   (model and judge both trim with strings.TrimSpace's Unicode white space, trim_space_go:
+   idempotence, BytesLemmas.trim_space_go_idem) *)
 Lemma model_value_trim line h :
   parse_header_line line = Ok h ->
-  exists v, h_val h = HRaw v /\ j_header line = Some (h_name h, trim_space (" "%char :: v)).
+  exists v, h_val h = HRaw v /\ j_header line = Some (h_name h, trim_space_go (" "%char :: v)).
 Proof.
   unfold parse_header_line, j_header. destruct (index_byte ":"%char line) as [p|]; [|discriminate].
   intros H. inversion H; subst. cbn [h_name h_val]. eexists. split; [reflexivity|].
-  rewrite trim_space_sp, trim_space_idem. reflexivity.
+  rewrite trim_space_go_sp by reflexivity. rewrite trim_space_go_idem. reflexivity.
 Qed.
 
 Definition hrel (p : bytes * bytes) (h : header) : Prop :=
-  fst p = h_name h /\ exists v, h_val h = HRaw v /\ snd p = trim_space (" "%char :: v).
+  fst p = h_name h /\ exists v, h_val h = HRaw v /\ snd p = trim_space_go (" "%char :: v).
 
 Lemma j_headers_rel jl hl :
   Forall2 (fun line h => parse_header_line line = Ok h) jl hl ->
@@ -1039,7 +1040,8 @@ Proof.
   destruct (atoi_inv _ _ A) as [Nv Rg].
   destruct (cl_rel _ _ _ R GH) as (p & prest & Cls & (_ & v' & Hv' & Ep)).
   rewrite Hv in Hv'. inversion Hv'; subst v'.
-  rewrite trim_space_sp, (trim_space_nospace _ Nv) in Ep.
+  rewrite trim_space_go_sp in Ep by reflexivity.
+  rewrite (trim_space_go_ascii_nospace _ (atoi_ascii _ _ A) Nv) in Ep.
   rewrite Cls in J. cbv beta iota in J. rewrite Ep, A in J. cbv beta iota in J.
   inversion J; subst jin. clear J. cbn [jm_start jm_headers jm_body m_headers m_body m_start].
   split; [|split; [|split; [|split; [|exact PS]]]].
